@@ -413,6 +413,28 @@ def run(repo, chk):
     # (b) get_rpn builds each operator's program in a NEW list: an operand's program may be needed again by another parent.
     dag_rules(repo, chk)
 
+    # ---------------------------------------------------------------- R-C15-9 "changing values": an assignment always reaches the compiled object
+    # Leaf._value is only a Python-side cache; the solver writes the live value into the compiled object without updating the cache, so the
+    # setter may never skip the write-through on the strength of the cache
+    from ..cfg import CFG
+    vs = repo.func(EXPR, "Leaf.value", kind="setter")
+    chk.fn(vs)
+    g = CFG(vs)
+    stores = g.nodes_where(lambda node, d: isinstance(node, ast.Assign) and unparse(node.targets[0]) in ("self._c_obj.value",))
+    tests = g.nodes_where(lambda node, d: d["kind"] == "test" and "_c_obj" in unparse(node) and "None" in unparse(node))
+    if not stores:
+        raise ExtractError("Leaf.value setter: write-through to the compiled object not found")
+    # edges that legitimately skip the store: the 'no compiled object' outcome of the _c_obj test
+    skip_edges = []
+    for t in tests:
+        txt = unparse(g.node_ast(t))
+        outcome = False if "is not None" in txt else True
+        skip_edges += g.branch_edges(t, outcome)
+    w = g.can_reach_avoiding(g.entry, {g.exit}, stores, drop_edges=skip_edges)
+    chk.expect(w is None, "R-C15-9", "Leaf.value = v writes v into the compiled object on every path that has one", loc(vs),
+               "a path returns before `self._c_obj.value = val`: after a solve (which loads values into the compiled object only) assigning a value equal to the stale Python-side "
+               "cache is dropped and residuals / Jacobian stay at the solver's point", expected="no exit that bypasses the write-through", found=g.path_text(w) if w else None)
+
 
 
 # ------------------------------------------------------------------ R-C15-7
@@ -610,6 +632,7 @@ def dag_rules(repo, chk):
     chk.floor("R-C15-8", 1 + 6)
 
 WITNESSES = [
+    dict(name="setter-skips-unchanged-cache", file=EXPR, old="    def value(self, val):\n        self._value = val\n", new="    def value(self, val):\n        if val == self._value:\n            return\n        self._value = val\n", rule="R-C15-9"),
     dict(name="rpn-aliases-operand-program", file=EXPR, old="            rpn_map[self] = _rpn = list(rpn_map[self._operand])\n", new="            rpn_map[self] = _rpn = rpn_map[self._operand]\n", rule="R-C15-8"),
     dict(name="merge-appends-duplicates", file=EXPR, old="            if oper not in present:\n                present.add(oper)\n                self.append_operator(oper)",
          new="            self.append_operator(oper)", rule="R-C15-8"),
